@@ -33,6 +33,14 @@ fn main() {
                 println!("    (\"{}\", \"{:X}\"), // engine {:X}", f, z.hash(&p), g.hash());
             }
         }
+        "fuzzrun" => {
+            // vcheck fuzzrun <target> <seeds dir> <runs per worker> <workers>: campaign smoke test
+            let c = vcheck::fuzz::campaign(&args[2], &args[3], None, args[4].parse().unwrap(), seed_from_env(), 120, args[5].parse().unwrap());
+            println!("executions {} artifacts {} notes {:?}", c.executions, c.artifacts.len(), c.notes);
+            for a in c.artifacts.iter().take(5) {
+                println!("  artifact {:?}", String::from_utf8_lossy(a));
+            }
+        }
         "list" => {
             for p in vcheck::props::all() {
                 println!("{}", p.id());
